@@ -11,6 +11,14 @@ namespace Orbit.Repl
 def tsOf : PC → TS
   | .waitSlot => .added
   | .fetching => .fetching
+  | .finishing => .fetching
+
+/-- a worker bound to `h` has buffered its log and queued its parents, and has not yet run
+`processEntryDone` -/
+def finAt (s : St) (h : Nat) : Prop := ∃ w ∈ s.workers, w.item = h ∧ w.pc = .finishing
+
+/-- the entry `h` has been fetched: its task says so, or its worker is about to say so -/
+def got (s : St) (h : Nat) : Prop := task s h = some .fetched ∨ finAt s h
 
 /-- `h` sits in the buffer or in a `LoadEnd` batch that the store has not handled yet -/
 def inBP (s : St) (h : Nat) : Prop := h ∈ s.buffer ∨ ∃ b ∈ s.pending, h ∈ b
